@@ -340,6 +340,10 @@ def main_pipeline(mod, ctx):
     except GenError as e:
         broken.append(dict(kind="translator", what=str(e)))
         ctx.log("translator failed:", e)
+    except Exception as e:  # noqa  the translator could not follow the source (e.g. an operation it cannot trace)
+        import traceback
+        broken.append(dict(kind="translator", what=f"{type(e).__name__}: {e}", traceback=traceback.format_exc()[-1500:]))
+        ctx.log("translator failed:", type(e).__name__, e)
     # 2. build
     theorems = list(mod.THEOREMS)
     failed = {}
@@ -395,19 +399,32 @@ def main_pipeline(mod, ctx):
     except GenError as e:
         cres = Result()
         cres.disagree("correspondence harness could not run", error=str(e))
+    except Exception as e:  # noqa  on the unchanged tree the harness runs through: an exception means the tie broke
+        import traceback
+        cres = Result()
+        cres.disagree("correspondence harness raised", error=f"{type(e).__name__}: {e}", traceback=traceback.format_exc()[-1500:])
     res.merge(cres)
     for d in cres.disagreements:
         broken.append(dict(kind="correspondence", **d))
     ctx.log(f"correspondence: {cres.evaluations} cases, {len(cres.disagreements)} disagreements")
     # 5. oracle
-    ores = mod.oracle(ctx)
+    try:
+        ores = mod.oracle(ctx)
+    except Exception as e:  # noqa  the real code raised on an input the oracle considers legal
+        import traceback
+        ores = Result()
+        broken.append(dict(kind="oracle-exception", what=f"{type(e).__name__}: {e}", traceback=traceback.format_exc()[-1500:]))
     res.merge(ores)
     ctx.log(f"oracle: {ores.evaluations} cases, {len(ores.counterexamples)} counterexamples")
     # 6. failing-input search if anything broke
     if broken and hasattr(mod, "search"):
         ctx.log(f"{len(broken)} broken obligations/ties -> searching for a failing input")
-        sres = mod.search(ctx, broken)
-        res.merge(sres)
+        try:
+            sres = mod.search(ctx, broken)
+            res.merge(sres)
+        except Exception as e:  # noqa
+            import traceback
+            broken.append(dict(kind="search-exception", what=f"{type(e).__name__}: {e}", traceback=traceback.format_exc()[-1500:]))
     # verdict
     known_hits, new_cex = [], []
     for c in res.counterexamples:
